@@ -105,6 +105,9 @@ def source_hygiene():
     return bad
 
 
+CLEAN_DIRS: dict = {}   # prop -> private from-scratch build dir (thorough tier), removed after coqchk
+
+
 class CoqResult:
     def __init__(self):
         self.ok = True
@@ -164,11 +167,25 @@ def coq_check_props(prop_id: str, clean=False) -> CoqResult:
         r.ok = False
         r.errors.append(f"missing {props}")
         return r
+    workdir = COQ
     if clean:
-        with Lock(COQ / ".lock"):
-            regen_coqproject()
-            subprocess.run(["make", "clean"], cwd=COQ, stdout=subprocess.DEVNULL, stderr=subprocess.DEVNULL)
-    ok, out = coq_make([f"Props/{prop_id}.vo"])
+        # thorough tier: a from-scratch .vo build of everything the property needs, in a private copy of the
+        # sources (a `make clean` in the shared tree would pull the rug from under concurrent checks)
+        workdir = BUILD / f"clean_{prop_id}_{os.getpid()}"
+        shutil.rmtree(workdir, ignore_errors=True)
+        for sub in ("Gen", "Model", "Proofs", "Props"):
+            (workdir / sub).mkdir(parents=True, exist_ok=True)
+            for f in (COQ / sub).glob("*.v"):
+                shutil.copy(f, workdir / sub / f.name)
+        (workdir / "_CoqProject").write_text("-Q . NP\n" + "\n".join(coq_files()) + "\n")
+        subprocess.run(["coq_makefile", "-f", "_CoqProject", "-o", "Makefile"], cwd=workdir,
+                       stdout=subprocess.DEVNULL, stderr=subprocess.DEVNULL)
+        pm = subprocess.run(["bash", "-c", 'ulimit -v 12000000; exec timeout "$@"', "_", "5400", "make", "-j8", f"Props/{prop_id}.vo"],
+                            cwd=workdir, stdout=subprocess.PIPE, stderr=subprocess.STDOUT, text=True)
+        ok, out = pm.returncode == 0, pm.stdout
+        CLEAN_DIRS[prop_id] = workdir
+    else:
+        ok, out = coq_make([f"Props/{prop_id}.vo"])
     if not ok:
         r.ok = False
         r.errors.append("coq build failed:\n" + out[-3000:])
@@ -176,7 +193,7 @@ def coq_check_props(prop_id: str, clean=False) -> CoqResult:
         return r
     # recompile the property file itself for fresh Print Assumptions output
     with Lock(COQ / ".lock"):
-        p = subprocess.run(["bash", "-c", 'ulimit -v 12000000; exec timeout "$@"', "_", "900", "coqc", "-Q", ".", "NP", f"Props/{prop_id}.v"], cwd=COQ,
+        p = subprocess.run(["bash", "-c", 'ulimit -v 12000000; exec timeout "$@"', "_", "900", "coqc", "-Q", ".", "NP", f"Props/{prop_id}.v"], cwd=workdir,
                            stdout=subprocess.PIPE, stderr=subprocess.STDOUT, text=True)
     if p.returncode != 0:
         r.ok = False
@@ -454,6 +471,9 @@ def finish(ctx: Ctx, search=None) -> int:
         print(f"VIOLATION property={ctx.prop} replay={path}{suffix}")
 
     write_evidence(ctx, len(violations), known_hits)
+    for d in list(CLEAN_DIRS.values()):
+        shutil.rmtree(d, ignore_errors=True)
+    CLEAN_DIRS.clear()
     ctx.cleanup()
     return 1 if violations else 0
 
@@ -526,10 +546,12 @@ def write_evidence(ctx: Ctx, nviol: int, known_hits: dict):
 def coqchk(prop: str, timeout=1500) -> dict:
     """Independent re-check of the compiled property file (thorough tier)."""
     t0 = time.time()
-    with Lock(COQ / ".lock"):
-        p = subprocess.run(["timeout", str(timeout), "coqchk", "-silent", "-o", "-Q", ".", "NP", f"NP.Props.{prop}"],
-                           cwd=COQ, stdout=subprocess.PIPE, stderr=subprocess.STDOUT, text=True)
+    cwd = CLEAN_DIRS.get(prop, COQ)
+    p = subprocess.run(["timeout", str(timeout), "coqchk", "-silent", "-o", "-Q", ".", "NP", f"NP.Props.{prop}"],
+                       cwd=cwd, stdout=subprocess.PIPE, stderr=subprocess.STDOUT, text=True)
     out = p.stdout
+    if prop in CLEAN_DIRS:
+        shutil.rmtree(CLEAN_DIRS.pop(prop), ignore_errors=True)
     axioms = []
     m = re.search(r"\* Axioms:(.*?)(\n\* |\Z)", out, flags=re.S)
     if m:
